@@ -45,6 +45,9 @@ static NS void g_ret(int idx, long res) {
   if (kind != Q_MPSCR) hist_return(idx, res);
   sim_progress();
 }
+static NS void g_peek_mismatch(void* seen, void* got, int popped) {
+  sim_violation("C15-peek-pop-mismatch", "mpsc_fifo_peek showed payload %p, the consumer's next pop %s %p", seen, popped ? "returned" : "found the queue empty", got);
+}
 static NS void g_push_done(int p) {
   sim_tso_sync(); /* "completed" means the push's stores have drained */
   pushed_done[p]++;
@@ -100,7 +103,11 @@ static long do_pop(int t) {
   int infl = g_inflight();
   long v = RES_EMPTY;
   if (kind == Q_MPSC) {
+    /* the single consumer looks before it takes: what peek showed is what the next pop returns */
+    void* seen = (void*)-1;
+    const int has = mpsc_fifo_peek(&mq, &seen);
     mpsc_fifo_node_t* n = mpsc_fifo_trypop(&mq);
+    if (has && (!n || n->data != seen)) g_peek_mismatch(seen, n ? n->data : NULL, n != NULL);
     if (n) {
       v = VALUE_OF(n->data);
       node_put(n);
